@@ -33,4 +33,34 @@ Section CompSpec.
 
   Definition check_components_g (g : gstate) (k : rel_kind) (comps : list (list T)) : bool :=
     check_components (g_nodes g) (g_adj g) teqb k comps.
+
+  (* ---- executable coherence tests of the adjacency the searches read ----
+     (hypotheses of the partition theorems; evaluated on every generated case) *)
+
+  (* the adjacency query is symmetric and stays inside the node list, and the
+     name index has no key outside the node list *)
+  Definition step_ok_b (g : gstate) : bool :=
+    let names := g_nodes g in
+    forallb (fun k => memb teqb k names) (map fst (nodes_map g)) &&
+    forallb (fun u =>
+               match get_successors_or_neighbors teqb g u with
+               | Ok ns =>
+                 forallb (fun v => memb teqb v names &&
+                                   match get_successors_or_neighbors teqb g v with
+                                   | Ok ns' => memb teqb u (map nname ns')
+                                   | _ => false
+                                   end) (map nname ns)
+               | _ => false
+               end) names.
+
+  Definition row_of (m : list (T * list T)) (v : T) : list T :=
+    match lookup teqb v m with Some l => l | None => [] end.
+
+  (* predecessors is the inverse of successors (as name maps) and both stay inside the node list *)
+  Definition wstep_ok_b (g : gstate) : bool :=
+    let names := g_nodes g in
+    forallb (fun kv => forallb (fun v => memb teqb v names && memb teqb (fst kv) (row_of (predecessors g) v))
+                               (snd kv)) (successors g) &&
+    forallb (fun kv => forallb (fun v => memb teqb v names && memb teqb (fst kv) (row_of (successors g) v))
+                               (snd kv)) (predecessors g).
 End CompSpec.
